@@ -9,6 +9,8 @@ from __future__ import annotations
 
 import math
 
+import re
+
 import numpy as np
 import pandas as pd
 from hypothesis import strategies as st
@@ -246,7 +248,11 @@ def _load(case, kinds, plans, y, g, cf, levels, xkind):
     kw = {"sensitive_features": gen.wrap_vector(kinds[1], g, plans[1], name="s")}
     if cf is not None and case["moment"] not in ("BoundedGroupLoss",):
         kw["control_features"] = gen.wrap_vector(kinds[2], cf, plans[2], name="c")
-    Xo, yo = _X(levels, xkind, plans[3]), gen.wrap_vector(kinds[0], y, plans[0], name="y")
+    ydt = case.get("y_dtype", "int")
+    if kinds[0] == "ndarray" and plans[0] == "default" or not set(y) <= {0, 1}:
+        Xo, yo = _X(levels, xkind, plans[3]), gen.wrap_vector(kinds[0], y, plans[0], name="y")
+    else:  # 0/1 labels arrive in some element type (bool, uint8, float32, ...); the reference run uses plain ints
+        Xo, yo = _X(levels, xkind, plans[3]), gen.typed_vector(kinds[0], y, plans[0], name="y", dtype=ydt)
     snap = gen.snapshot((Xo, yo, kw))
     m.load_data(Xo, yo, **kw)
     if not gen.unchanged(snap, (Xo, yo, kw)):
@@ -260,8 +266,20 @@ def _gamma_map(s):
     for i, e in enumerate(idx.tolist()):
         if not isinstance(e, tuple):
             e = (e,)
-        out[tuple(str(x) for x in e)] = float(s.iloc[i])
+        out[_key(e)] = float(s.iloc[i])
     return out
+
+
+def _key(e):
+    """Index entry -> tuple of strings, with one name per label class."""
+    if not isinstance(e, tuple):
+        e = (e,)
+    return tuple(_LABEL_EVENT.sub(lambda mo: "label=" + ("1" if mo.group(1) in ("1.0", "True") else "0"), str(x)) for x in e)
+
+
+# event names are built from str(label): the same class is 'label=1', 'label=1.0' or 'label=True' depending on the
+# element type of y - one name here
+_LABEL_EVENT = re.compile(r"label=(1\.0|0\.0|True|False)$")
 
 
 def check_moment(case):
@@ -305,8 +323,8 @@ def check_moment(case):
             raise PropertyViolation(f"{case['moment']}: gamma[{k}] changes under row permutation: {g_ref[k]!r} -> {g_pm[k]!r}")
     if case["moment"] != "ErrorRate":
         lam_ref = lam_for(ref)
-        lam_map = {tuple(str(x) for x in (e if isinstance(e, tuple) else (e,))): lam_ref.iloc[i] for i, e in enumerate(lam_ref.index.tolist())}
-        lam_pm = pd.Series([lam_map[tuple(str(x) for x in (e if isinstance(e, tuple) else (e,)))] for e in pm.index.tolist()], index=pm.index)
+        lam_map = {_key(e): lam_ref.iloc[i] for i, e in enumerate(lam_ref.index.tolist())}
+        lam_pm = pd.Series([lam_map[_key(e)] for e in pm.index.tolist()], index=pm.index)
         sw_pm = np.asarray(pm.signed_weights(lam_pm), dtype=float)
         if not np.allclose(sw_pm, a[list(perm)], rtol=1e-10, atol=1e-12):
             raise PropertyViolation(f"{case['moment']}: signed_weights of permuted rows are not the permuted signed weights")
@@ -327,11 +345,11 @@ def check_moment(case):
     if case["moment"] != "ErrorRate":
         inv = {str(mapping[M.norm(v)]): str(v) for v in M.observed_levels(g)}
         lam_ref = lam_for(ref)
-        lam_by_key = {tuple(str(x) for x in (e if isinstance(e, tuple) else (e,))): float(lam_ref.iloc[i])
+        lam_by_key = {_key(e): float(lam_ref.iloc[i])
                       for i, e in enumerate(lam_ref.index.tolist())}
 
         def orig_key(e):
-            e = tuple(str(x) for x in (e if isinstance(e, tuple) else (e,)))
+            e = _key(e)
             return e[:-1] + (inv.get(e[-1], e[-1]),)
 
         lam_bj = pd.Series([lam_by_key[orig_key(e)] for e in bj.index.tolist()], index=bj.index)
@@ -392,8 +410,8 @@ def check_threshold_optimizer(case):
                                 prefit=case["prefit"], predict_method="predict", grid_size=case["grid_size"], flip=case["flip"])
         X = _X(scores, xkind, plans[2])
         # labels in {0,1} may arrive as ints, floats or bools (only in the container run; the reference uses ints)
-        cast = {"int": int, "float": float, "bool": bool}[case.get("y_dtype", "int") if kinds[0] != "ndarray" or plans[0] != "default" else "int"]
-        yo = gen.wrap_vector(kinds[0], [cast(v) for v in y], plans[0], name=case["yname"])
+        ydt = case.get("y_dtype", "int") if kinds[0] != "ndarray" or plans[0] != "default" else "int"
+        yo = gen.typed_vector(kinds[0], y, plans[0], name=case["yname"], dtype=ydt)
         so = gen.wrap_vector(kinds[1], g, plans[1], name="s")
         snap = gen.snapshot((X, yo, so))
         to.fit(X, yo, sensitive_features=so)
@@ -463,8 +481,8 @@ def check_reduction(case):
             est = fr.ExponentiatedGradient(ExactTable(), m, eps=0.05, max_iter=8, nu=1e-4, run_linprog_step=case["lp"])
         else:
             est = fr.GridSearch(ExactTable(), m, grid_size=case["grid_size"], constraint_weight=0.5)
-        cast = {"int": int, "float": float, "bool": bool}[case.get("y_dtype", "int") if kinds[0] != "ndarray" or plans[0] != "default" else "int"]
-        yo = gen.wrap_vector(kinds[0], [cast(v) for v in y], plans[0], name="y")
+        ydt = case.get("y_dtype", "int") if kinds[0] != "ndarray" or plans[0] != "default" else "int"
+        yo = gen.typed_vector(kinds[0], y, plans[0], name="y", dtype=ydt)
         snap = gen.snapshot((X, yo, kw))
         est.fit(X, yo, **kw)
         if not gen.unchanged(snap, (X, yo, kw)):
@@ -563,6 +581,7 @@ def _moment_cases(draw):
         "x_kind": draw(st.sampled_from(["ndarray", "dataframe"])),
         "perm": list(draw(st.permutations(range(n)))),
         "shift": draw(st.integers(1, 2)),
+        "y_dtype": draw(st.sampled_from(gen.LABEL_DTYPES)),
     }
 
 
@@ -600,7 +619,7 @@ def _to_cases(draw):
         "plans": [draw(gen.index_plan) for _ in range(4)],
         "x_kind": draw(st.sampled_from(["ndarray", "dataframe"])),
         "yname": draw(st.sampled_from(["lab", "y", "0", "col"])),
-        "y_dtype": draw(st.sampled_from(["int", "int", "float", "bool"])),
+        "y_dtype": draw(st.sampled_from(gen.LABEL_DTYPES)),
         "predict_kind": draw(st.sampled_from([None, "list", "ndarray", "series", "ndarray_object", "series_object", "dataframe"])),
         "seed": draw(st.integers(0, 1000)),
         "shift": draw(st.integers(1, 2)),
@@ -618,7 +637,7 @@ def _red_cases(draw):
         "g": g, "y": y,
         "levels": draw(st.lists(st.integers(0, 2), min_size=n, max_size=n)),
         "lp": draw(st.booleans()),
-        "y_dtype": draw(st.sampled_from(["int", "int", "float", "bool"])),
+        "y_dtype": draw(st.sampled_from(gen.LABEL_DTYPES)),
         "grid_size": draw(st.sampled_from([4, 7])),
         "kinds": [draw(gen.vector_kind_pandas_heavy), draw(gen.vector_kind_pandas_heavy)],
         "plans": [draw(gen.index_plan) for _ in range(3)],
